@@ -327,10 +327,15 @@ impl RegretParams {
             strat.fill(0.0);
             strat[ind] = 1.0;
         } else {
+            // subtract the extreme that keeps every exponent non-positive
             let max = cum_reg
                 .into_floats_mut()
                 .map(|&mut v| v)
-                .reduce(f64::max)
+                .reduce(if self.no_positive > 0.0 {
+                    f64::max
+                } else {
+                    f64::min
+                })
                 .unwrap();
             let norm: f64 = cum_reg
                 .into_floats_mut()
